@@ -100,6 +100,17 @@ Definition payload_item (code : N) (p : list N) : option e5item :=
     match try W2 with Some i => Some i | None =>
     match try W4 with Some i => Some i | None => try W8 end end end.
 
+(* n items, one after the other *)
+Fixpoint e5_items (dec : list N -> option (e5item * list N)) (cnt : nat) (r : list N) (acc : list e5item)
+  : option (e5item * list N) :=
+  match cnt with
+  | O => Some (EL (rev acc), r)
+  | S c => match dec r with
+           | Some (i, r') => e5_items dec c r' (i :: acc)
+           | None => None
+           end
+  end.
+
 Fixpoint e5_decode (fuel : nat) (bs : list N) : option (e5item * list N) :=
   match fuel with
   | O => None
@@ -113,20 +124,15 @@ Fixpoint e5_decode (fuel : nat) (bs : list N) : option (e5item * list N) :=
       match take k r with
       | None => None
       | Some (lb, r1) =>
-        let n := N.to_nat (be_val lb 0) in
+        let n := be_val lb 0 in
         if code =? code_L then
-          (fix items (cnt : nat) (r : list N) (acc : list e5item) : option (e5item * list N) :=
-             match cnt with
-             | O => Some (EL (rev acc), r)
-             | S c => match e5_decode f r with
-                      | Some (i, r') => items c r' (i :: acc)
-                      | None => None
-                      end
-             end) n r1 []
+          (* every item occupies at least one byte *)
+          if N.of_nat (length r1) <? n then None else e5_items (e5_decode f) (N.to_nat n) r1 []
         else
-          match take n r1 with
+          match take (N.to_nat (N.min n (N.of_nat (length r1)))) r1 with
           | None => None
           | Some (p, r2) =>
+            if N.of_nat (length p) <? n then None else
             match payload_item code p with
             | Some i => Some (i, r2)
             | None => None
